@@ -94,74 +94,100 @@ class GenBench:
     """One elaborated generator; runs lists of transmissions closed-loop and records every cycle.
 
     gcfg: {"data": [...], "w": 1|2|4 bytes per word, "big": bool, "haslen": bool, "ser": bool,
-           "mlw": max_length_width (default 16; serializer 8)}
+           "mlw": max_length_width (default 16; serializer 8), "domain": clock domain ("sync" default, "usb", ...),
+           "stream": None (StreamInterface / 2-bit-valid 16-bit stream / SuperSpeedStreamInterface by width) |
+                     "usbin" (USBInStreamInterface, w=1) | "v1" (StreamInterface(payload_width=8w): ONE valid bit),
+           "ints": constant given as an iterable of integers (one per word) instead of bytes}
     A transmission: {"sp", "ml", "pre": idle cycles before the start strobe, "ready": iterable of bits
-    (consumed from the first of those idle cycles on; exhausted -> 1), "idle_sp"/"idle_ml": inputs while idle}.
+    (consumed from the first of those idle cycles on; exhausted -> 1), "idle_sp"/"idle_ml": inputs while idle,
+    "after": (sp, ml) applied from the cycle after the strobe on (inputs changed right after they were sampled),
+    "rst_at": assert the domain reset for one cycle that many cycles after the strobe}.
     """
 
     def __init__(self, gcfg):
         use_repo()
+        from amaranth import ClockDomain, Module
         from amaranth.sim import Simulator
         from luna.gateware.stream import StreamInterface
         from luna.gateware.stream.generator import ConstantStreamGenerator, StreamSerializer
-        from luna.gateware.usb.stream import SuperSpeedStreamInterface
+        from luna.gateware.usb.stream import SuperSpeedStreamInterface, USBInStreamInterface
         self.gcfg = gcfg
         data, w = gcfg["data"], gcfg["w"]
         self.w = w
         self.mlw = gcfg.get("mlw") or (8 if gcfg["ser"] else 16)
+        self.domain = dom = gcfg.get("domain") or "sync"
+        st = gcfg.get("stream")
+        self.v1 = bool(w > 1 and (st == "v1" or gcfg["ser"]))
+        mlw = self.mlw if gcfg["haslen"] else None
 
         class HalfWordStream(StreamInterface):          # 16-bit payload with one valid bit per byte
             def __init__(self, payload_width=16):
                 super().__init__(payload_width=16, valid_width=2)
 
         if gcfg["ser"]:
-            assert w == 1
-            self.dut = StreamSerializer(len(data), domain="sync", data_width=8,
-                                        max_length_width=self.mlw if gcfg["haslen"] else None)
+            assert len(data) % w == 0
+            self.dut = StreamSerializer(len(data) // w, domain=dom, data_width=8 * w, max_length_width=mlw,
+                                        **({"stream_type": USBInStreamInterface} if st == "usbin" else {}))
         else:
-            self.dut = ConstantStreamGenerator(
-                bytes(data), domain="sync",
-                stream_type={1: StreamInterface, 2: HalfWordStream, 4: SuperSpeedStreamInterface}[w],
-                data_width=16 if w == 2 else None,
-                max_length_width=self.mlw if gcfg["haslen"] else None,
-                data_endianness="big" if gcfg["big"] else "little")
-        self.has_olen = bool(gcfg["haslen"] and not gcfg["ser"])
-        self.sim = Simulator(self.dut)
-        self.sim.add_clock(1e-6, domain="sync")
+            if st == "usbin":
+                stype, dw = USBInStreamInterface, None
+            elif st == "v1":
+                stype, dw = StreamInterface, 8 * w
+            else:
+                stype, dw = {1: (StreamInterface, None), 2: (HalfWordStream, 16), 4: (SuperSpeedStreamInterface, None)}[w]
+            const = bytes(data)
+            if gcfg.get("ints"):
+                assert len(data) % w == 0 and not gcfg["big"]
+                const = [int.from_bytes(bytes(data[i:i + w]), "little") for i in range(0, len(data), w)]
+                dw = 8 if w == 1 else dw      # (SuperSpeedStreamInterface takes no payload_width: width from the stream)
+            self.dut = ConstantStreamGenerator(const, domain=dom, stream_type=stype, data_width=dw,
+                                               max_length_width=mlw,
+                                               data_endianness="big" if gcfg["big"] else "little")
+        # output_length = min(max_length, len(constant)): for a constant given as multi-byte integers the docstring
+        # leaves open whether that length is in entries or bytes (the code counts entries) -> not checked there
+        self.has_olen = bool(gcfg["haslen"] and not gcfg["ser"] and not (gcfg.get("ints") and w > 1))
+        top = Module()
+        self.cd = ClockDomain(dom)
+        top.domains += self.cd
+        top.submodules.dut = self.dut
+        self.sim = Simulator(top)
+        self.sim.add_clock(1e-6, domain=dom)
         self.sim.add_testbench(self._bench)
         self._first = True
         self._txs = None
         self._recs = None
 
-    def spec_cfg(self):
+    def spec_cfg(self, clean=True):
         g = self.gcfg
         return {"data": list(g["data"]), "w": g["w"], "big": bool(g["big"]), "haslen": bool(g["haslen"]),
-                "mlmax": (1 << self.mlw) - 1 if g["haslen"] else len(g["data"]), "olen": self.has_olen}
+                "mlmax": (1 << self.mlw) - 1 if g["haslen"] else len(g["data"]), "olen": self.has_olen,
+                "v1": self.v1, "latched": not g["ser"], "clean": bool(clean)}
 
     async def _bench(self, ctx):
-        dut, g, w = self.dut, self.gcfg, self.w
+        dut, g, w, dom = self.dut, self.gcfg, self.w, self.domain
         if g["ser"]:
-            for j, d in enumerate(g["data"]):
-                ctx.set(dut.data[j], d)
+            for j in range(len(g["data"]) // w):
+                ctx.set(dut.data[j], int.from_bytes(bytes(g["data"][j * w:(j + 1) * w]), "little"))
         recs = []
         n = len(g["data"])
 
-        async def cycle(start, sp, ml, ready):
+        async def cycle(start, sp, ml, ready, rst=0):
             ctx.set(dut.start, int(start))
             ctx.set(dut.start_position, sp)
             if g["haslen"]:
                 ctx.set(dut.max_length, ml)
             ctx.set(dut.stream.ready, int(ready))
+            ctx.set(self.cd.rst, int(rst))
             p = ctx.get(dut.stream.payload)
             r = {"start": bool(start), "sp": int(ctx.get(dut.start_position)),
-                 "ml": int(ctx.get(dut.max_length)) if g["haslen"] else n, "ready": bool(ready),
+                 "ml": int(ctx.get(dut.max_length)) if g["haslen"] else n, "ready": bool(ready), "rst": bool(rst),
                  "valid": int(ctx.get(dut.stream.valid)),
                  "lanes": [(p >> (8 * j)) & 0xFF for j in range(w)],
                  "first": bool(ctx.get(dut.stream.first)), "last": bool(ctx.get(dut.stream.last)),
                  "done": bool(ctx.get(dut.done)),
                  "olen": int(ctx.get(dut.output_length)) if self.has_olen else 0}
             recs.append(r)
-            await ctx.tick("sync")
+            await ctx.tick(dom)
             return r
 
         for tx in self._txs:
@@ -170,27 +196,32 @@ class GenBench:
             for _ in range(tx.get("pre", 0)):
                 await cycle(0, tx.get("idle_sp", sp), tx.get("idle_ml", ml) if g["haslen"] else n, next(rd, 1))
             await cycle(1, sp, ml, next(rd, 1))
-            if ml == 0:
+            sp2, ml2 = tx.get("after", (sp, ml))
+            if not g["haslen"]:
+                ml2 = n
+            rst_at = tx.get("rst_at")
+            if ml == 0 and rst_at is None:
                 for _ in range(MAXLAT + 2):
                     await cycle(0, sp, ml, next(rd, 1))
                 continue
             quiet = 0
-            for _ in range(40 + 8 * n + 4 * len(tx.get("ready", ()))):
-                r = await cycle(0, sp, ml, next(rd, 1))
-                if r["done"]:
+            for c in range(40 + 8 * n + 4 * len(tx.get("ready", ()))):
+                r = await cycle(0, sp2, ml2, next(rd, 1), rst=(c == rst_at))
+                if r["done"] or c == rst_at:
                     break
                 quiet = quiet + 1 if r["valid"] == 0 else 0
                 if quiet > MAXLAT + 3:        # the module went silent without done: stop, TLC will say why
                     break
+        await cycle(0, 0, 0 if g["haslen"] else n, 1)
         self._recs = recs
 
-    def run(self, txs):
+    def run(self, txs, clean=True):
         self._txs = txs
         if not self._first:
             self.sim.reset()
         self._first = False
         self.sim.run()
-        return {"cfg": self.spec_cfg(), "steps": self._recs}
+        return {"cfg": self.spec_cfg(clean), "steps": self._recs}
 
 
 def _mlmax(g):
@@ -210,7 +241,7 @@ def _legal(g, sp, ml):
         return False
     if g["haslen"] and ml > _mlmax(g):
         return False
-    if g["big"]:
+    if g["big"] or (w > 1 and (g.get("stream") == "v1" or g["ser"])):      # no cut inside a word
         avail = n - sp * w
         count = min(ml, avail)
         if count < avail and count % w != 0:
@@ -240,6 +271,8 @@ def _txs_from_behaviour(beh):
             txs.append(cur)
             idle_ready = []
         elif prev_phase != "idle" and cur is not None:
+            if i["rst"] and "rst_at" not in cur:
+                cur["rst_at"] = len(cur["ready"]) - cur["pre"] - 1
             cur["ready"].append(int(i["ready"]))
         else:
             idle_ready.append(int(i["ready"]))
@@ -248,7 +281,8 @@ def _txs_from_behaviour(beh):
 
 
 def _gkey(g):
-    return (len(g["data"]), g["w"], bool(g["big"]), bool(g["haslen"]), bool(g["ser"]), g.get("mlw"))
+    return (len(g["data"]), g["w"], bool(g["big"]), bool(g["haslen"]), bool(g["ser"]), g.get("mlw"),
+            g.get("domain"), g.get("stream"), bool(g.get("ints")))
 
 
 def classify_c27(trace, matched, status, meta):
@@ -257,6 +291,13 @@ def classify_c27(trace, matched, status, meta):
     rec = steps[k - 1] if 0 < k <= len(steps) else None
     prev = steps[k - 2] if k >= 2 else None
     pattern = "other"
+    latched_sp = None
+    for r in steps[:max(k - 1, 0)]:
+        if r["start"]:
+            latched_sp = r["sp"]
+    if rec is not None and status == "first" and trace["cfg"].get("latched") and latched_sp is not None \
+            and rec["sp"] != latched_sp and not rec["first"]:
+        return {"clause": "first", "pattern": "start_position_changed_after_strobe"}
     if rec is not None:
         if prev is not None and prev["valid"] and not prev["ready"]:
             pattern = "after_stall"
@@ -382,6 +423,70 @@ def check_C27(rep):
         for i in range(0, len(txs), 60):
             jobs.append((g, txs[i:i + 60], "port-range-sweep"))
 
+    # 2b''. code -> spec: one configuration per constructor-parameter value class (docs: configuration coverage):
+    # clock domain, stream_type (USB IN stream, one-valid-bit wide streams, SuperSpeed), constant given as integers,
+    # max_length_width 1 and 2, multi-byte StreamSerializer; inputs changed right after the strobe; domain reset
+    G = lambda **kw: dict({"big": False, "haslen": True, "ser": False}, **kw)
+    classes = [
+        G(data=data_of(6, 8), w=1, domain="usb", stream="usbin"),
+        G(data=data_of(10, 8), w=4, domain="usb"),
+        G(data=data_of(5, 8), w=1, ints=True, domain="fast"),
+        G(data=data_of(12, 8), w=4, ints=True, mlw=5),
+        G(data=data_of(7, 8), w=2, stream="v1", mlw=4),
+        G(data=data_of(10, 8), w=4, stream="v1"),
+        G(data=data_of(8, 8), w=2, ser=True, haslen=False),
+        G(data=data_of(8, 8), w=4, ser=True, haslen=False, domain="usb"),
+        G(data=data_of(3, 8), w=1, mlw=1),
+        G(data=data_of(6, 8), w=4, mlw=2),
+        G(data=data_of(3, 8), w=1, ser=True, mlw=1),
+        G(data=data_of(5, 8), w=1, ser=True, domain="usb", stream="usbin", mlw=16),
+        G(data=data_of(9, 8), w=4, big=True, domain="usb", mlw=4),
+    ]
+    if quick:                                    # all classes every run; their order/requests rotate with the seed
+        rng.shuffle(classes)
+    witnesses = []
+    for ci, g in enumerate(classes):
+        txs = []
+        reqs = _requests(g)
+        if quick and len(reqs) > 14:
+            reqs = rng.sample(reqs, 14)
+        for sp, ml in reqs:
+            nw = -(-min(ml, len(g["data"]) - sp * g["w"]) // g["w"]) if ml else 0
+            pre = rng.choice([0, 1])
+            tx = {"sp": sp, "ml": ml, "pre": pre,
+                  "ready": [] if not nw or rng.random() < 0.5 else _stall_pattern(pre, rng.randrange(nw), 2),
+                  "idle_sp": rng.randrange(_nwords(g)), "idle_ml": rng.randrange(_mlmax(g) + 1) if g["haslen"] else 0}
+            if not g["ser"] and g["haslen"] and rng.random() < 0.5:       # max_length changed right after the strobe
+                tx["after"] = (sp, rng.randrange(_mlmax(g) + 1))
+            if rng.random() < 0.25:                                       # domain reset in mid-operation
+                tx["rst_at"] = rng.randrange(0, nw + 3)
+            txs.append(tx)
+        jobs.append((g, txs, "config-classes"))
+        if not g["ser"] and _nwords(g) > 1:        # witness: start_position changed right after the strobe
+            wtx = []
+            for sp, ml in rng.sample(reqs, min(3, len(reqs))):
+                if ml:
+                    wtx.append({"sp": sp, "ml": ml, "pre": 1, "ready": [1, 0, 0, 1],
+                                "after": ((sp + 1 + rng.randrange(_nwords(g) - 1)) % _nwords(g), ml)})
+            if wtx:
+                witnesses.append((g, wtx, "config-classes"))
+    # the same two stimulus lessons on the classic configurations
+    for g in (G(data=data_of(9, 9), w=1), G(data=data_of(11, 9), w=4), G(data=data_of(11, 9), w=4, big=True, mlw=8)):
+        txs = []
+        rq = _requests(g)
+        for sp, ml in rng.sample(rq, min(len(rq), 12 if quick else 60)):
+            nw = -(-min(ml, len(g["data"]) - sp * g["w"]) // g["w"]) if ml else 0
+            tx = {"sp": sp, "ml": ml, "pre": rng.choice([0, 1]), "ready": [int(rng.random() > 0.3) for _ in range(12)],
+                  "after": (sp, rng.randrange(len(g["data"]) + 3))}
+            if g["big"]:
+                tx.pop("after")
+            if rng.random() < 0.4:
+                tx["rst_at"] = rng.randrange(0, nw + 3)
+            txs.append(tx)
+        jobs.append((g, txs, "strobe-and-reset"))
+        witnesses.append((g, [{"sp": 1, "ml": len(g["data"]), "pre": 0, "ready": [], "after": (0, len(g["data"]))}],
+                          "strobe-and-reset"))
+
     # 2c. code -> spec: random constants and schedules beyond the model's bounds
     for _ in range(12 if quick else 400):
         w = rng.choice([1, 1, 2, 4, 4, 4])
@@ -412,7 +517,7 @@ def check_C27(rep):
     items = []
     unbuildable = set()
     by_origin = {}
-    for g, txs, origin in jobs:
+    for g, txs, origin, clean in [j + (True,) for j in jobs] + [w + (False,) for w in witnesses]:
         key = (tuple(g["data"]),) + _gkey(g)
         if key not in benches:
             try:
@@ -428,7 +533,7 @@ def check_C27(rep):
                                  "%s: %s" % (type(ex).__name__, str(ex).splitlines()[0][:120])))
         if benches[key] is None:
             continue
-        trace = benches[key].run(txs)
+        trace = benches[key].run(txs, clean=clean)
         rep.add_eval(len(trace["steps"]))
         by_origin[origin] = by_origin.get(origin, 0) + len(trace["steps"])
         stalled = False
@@ -445,6 +550,8 @@ def check_C27(rep):
         items.append((trace, {"dut": "StreamSerializer" if g["ser"] else "ConstantStreamGenerator",
                               "n": len(g["data"]), "w": g["w"], "big": g["big"], "haslen": g["haslen"],
                               "mlw": benches[key].mlw if g["haslen"] else None,
+                              "domain": benches[key].domain, "stream": g.get("stream"), "ints": bool(g.get("ints")),
+                              "class": "clean" if clean else "witness",
                               "origin": origin, "transmissions": len(txs)}))
     for dut, why in sorted(unbuildable):
         rep.notes.append("%s built without max_length_width does not elaborate on this tree (%s); that "
@@ -591,8 +698,11 @@ def _runtime_descriptor(data):
 
 def _collection(entries, runtime=True):
     from usb_protocol.emitters.descriptors import DeviceDescriptorCollection
-    c = DeviceDescriptorCollection(automatic_language_descriptor=False)
+    # an entry flagged "auto" is the (STRING, 0) language descriptor the collection adds by itself
+    c = DeviceDescriptorCollection(automatic_language_descriptor=any(e.get("auto") for e in entries))
     for e in entries:
+        if e.get("auto"):
+            continue
         d = _runtime_descriptor(list(e["d"])) if (runtime and e["rt"]) else bytes(e["d"])
         c.add_descriptor(d, index=e["i"], descriptor_type=e["t"])
     return c
@@ -628,13 +738,17 @@ class HandlerBench:
     PID byte, then a bounded-stall pattern; a zero-length packet is seen, never accepted) or `eager`
     (ready always high, like the repository's unit tests)."""
 
-    def __init__(self, kind, table, maxpkt):
+    def __init__(self, kind, table, maxpkt, opts=None):
         use_repo()
+        from amaranth import ClockDomain, Module
         from amaranth.sim import Simulator
         from luna.gateware.usb.usb2 import descriptor as D
         self.kind, self.table, self.maxpkt = kind, table, maxpkt
+        opts = opts or {}
+        self.domain = dom = opts.get("domain", "usb") if kind == "block" else "usb"
         if kind == "block":
-            dut = D.GetDescriptorHandlerBlock(_collection(table), max_packet_length=maxpkt)
+            dut = D.GetDescriptorHandlerBlock(_collection(table), max_packet_length=maxpkt,
+                                              **({"domain": dom} if "domain" in opts else {}))
         elif kind == "dist":
             dut = D.GetDescriptorHandlerDistributed(_collection(table), max_packet_length=maxpkt)
         else:   # exactly what StandardRequestHandler.get_descriptor_handler_submodule builds
@@ -645,8 +759,12 @@ class HandlerBench:
                 _collection([e for e in table if e["rt"]]), max_packet_length=maxpkt))
         self.dut = dut
         self.max_pkts = max(len(e["d"]) for e in table) // maxpkt + 3   # a host gives up eventually
-        self.sim = Simulator(dut)
-        self.sim.add_clock(1 / 60e6, domain="usb")
+        top = Module()
+        self.cd = ClockDomain(dom)
+        top.domains += self.cd
+        top.submodules.dut = dut
+        self.sim = Simulator(top)
+        self.sim.add_clock(1 / 60e6, domain=dom)
         self.sim.add_testbench(self._bench)
         self._first = True
         self.cycles = 0
@@ -664,7 +782,7 @@ class HandlerBench:
                 ctx.set(dut.tx.ready, 1 if eager else 0)
                 if ctx.get(dut.tx.valid) or ctx.get(dut.stall):
                     spur += 1
-                await ctx.tick("usb")
+                await ctx.tick(self.domain)
                 self.cycles += 1
 
         def take_spur():
@@ -682,12 +800,28 @@ class HandlerBench:
             steps.append({"e": "setup", "v": tr["v"], "wlen": tr["wlen"], "spur": take_spur()})
             acks = iter(tr.get("acks", ()))
             stop_after = tr.get("stop_after")
-            off, got, npk, stalled = 0, 0, 0, False
+            off, got, npk, stalled, nin = 0, 0, 0, False, 0
             while True:
                 if (stop_after is not None and npk >= stop_after) or npk >= self.max_pkts:
                     break
                 ctx.set(dut.start_position, off)
                 await quiet(rng.randint(1, 3))
+                if tr.get("rst_in") == nin:
+                    # reset of the handler's clock domain in the middle of this IN: whatever it was doing is
+                    # abandoned (not observed); afterwards it must be silent and serve the next request normally
+                    sp0 = take_spur()
+                    for cyc in range(tr.get("rst_cyc", 3) + 1):
+                        ctx.set(dut.start, 1 if cyc == 0 else 0)
+                        ctx.set(dut.tx.ready, 1 if eager else 0)
+                        ctx.set(self.cd.rst, 1 if cyc == tr.get("rst_cyc", 3) else 0)
+                        await ctx.tick(self.domain)
+                        self.cycles += 1
+                    ctx.set(self.cd.rst, 0)
+                    ctx.set(dut.start, 0)
+                    steps.append({"e": "reset", "spur": sp0})
+                    stalled = True
+                    break
+                nin += 1
                 rec = {"e": "in", "off": off, "spur": take_spur()}
                 # ---- response window -------------------------------------------------------------
                 inpkt, zlp, stall, done = False, False, False, False
@@ -726,7 +860,7 @@ class HandlerBench:
                         gaps += 1
                     if hold > 0:
                         hold -= 1
-                    await ctx.tick("usb")
+                    await ctx.tick(self.domain)
                     self.cycles += 1
                     if done:
                         break
@@ -773,8 +907,9 @@ class HandlerBench:
 class DeviceBench:
     """A real USBDevice (UTMI, full speed) with a standard control endpoint, driven by hosts/utmi.UTMIHost."""
 
-    def __init__(self, kind, table, maxpkt):
+    def __init__(self, kind, table, maxpkt, opts=None):
         use_repo()
+        from amaranth import ClockDomain, Module
         from amaranth.sim import Simulator
         from luna.gateware.interface.utmi import UTMIInterface
         from luna.gateware.usb.usb2.control import USBControlEndpoint
@@ -783,10 +918,28 @@ class DeviceBench:
         self.bus = UTMIInterface()
         self.dev = USBDevice(bus=self.bus)
         ep = USBControlEndpoint(utmi=self.bus, max_packet_size=maxpkt)
-        ep.add_standard_request_handlers(_collection(table), avoid_blockram=(kind == "dev-dist"))
+        opts = opts or {}
+        if opts.get("avoid_env"):             # avoid_blockram=None: the handler defers to LUNA_AVOID_BLOCKRAM
+            old = os.environ.get("LUNA_AVOID_BLOCKRAM")
+            if kind == "dev-dist":
+                os.environ["LUNA_AVOID_BLOCKRAM"] = "1"
+            else:
+                os.environ.pop("LUNA_AVOID_BLOCKRAM", None)
+            try:
+                ep.add_standard_request_handlers(_collection(table))
+            finally:
+                os.environ.pop("LUNA_AVOID_BLOCKRAM", None)
+                if old is not None:
+                    os.environ["LUNA_AVOID_BLOCKRAM"] = old
+        else:
+            ep.add_standard_request_handlers(_collection(table), avoid_blockram=(kind == "dev-dist"))
         self.max_pkts = max(len(e["d"]) for e in table) // maxpkt + 3
         self.dev.add_endpoint(ep)
-        self.sim = Simulator(self.dev)
+        top = Module()
+        self.cd = ClockDomain("usb")
+        top.domains += self.cd
+        top.submodules.dev = self.dev
+        self.sim = Simulator(top)
         self.sim.add_clock(1 / 12e6, domain="usb")
         self.sim.add_testbench(self._bench)
         self._first = True
@@ -817,18 +970,28 @@ class DeviceBench:
         for tr in self._transfers:
             await host.idle(ctx, rng.randint(3, 8))
             spur = take_spur()
-            r = await host.setup(ctx, 0, H.setup_bytes(0x80, 6, tr["v"], 0, tr["wlen"]))
+            r = await host.setup(ctx, 0, H.setup_bytes(0x80, 6, tr["v"], tr.get("windex", 0), tr["wlen"]))
             consumed = len(host.device_packets)
             steps.append({"e": "setup", "v": tr["v"], "wlen": tr["wlen"], "spur": spur,
                           "resp": r.get("pid", r.get("kind"))})
             acks = iter(tr.get("acks", ()))
             stop_after = tr.get("stop_after")
-            got, npk, naks, stalled = 0, 0, 0, False
+            got, npk, naks, stalled, nin = 0, 0, 0, False, 0
             while True:
                 if (stop_after is not None and npk >= stop_after) or npk >= self.max_pkts:
                     break
                 await host.idle(ctx, rng.randint(3, 8))
                 spur = take_spur()
+                if tr.get("rst_in") == nin:
+                    # reset of the usb clock domain between two transactions of the data stage
+                    ctx.set(self.cd.rst, 1)
+                    await host.idle(ctx, 1)
+                    ctx.set(self.cd.rst, 0)
+                    await host.idle(ctx, 20)
+                    steps.append({"e": "reset", "spur": spur})
+                    stalled = True
+                    break
+                nin += 1
                 ack = bool(next(acks, True))
                 r = await host.in_transaction(ctx, 0, 0, ack=ack)
                 consumed = len(host.device_packets)
@@ -876,8 +1039,8 @@ class DeviceBench:
         return self._steps
 
 
-def make_bench(kind, table, maxpkt):
-    return (HandlerBench if kind in UNIT_KINDS else DeviceBench)(kind, table, maxpkt)
+def make_bench(kind, table, maxpkt, opts=None):
+    return (HandlerBench if kind in UNIT_KINDS else DeviceBench)(kind, table, maxpkt, opts)
 
 
 # ---- configuration families --------------------------------------------------------------------------
@@ -956,6 +1119,9 @@ def _plans_from_behaviour(beh):
         elif i["e"] == "status" and cur is not None:
             if cur["_stage"] == "data":
                 cur["stop_after"] = cur["_acked"]
+            cur = None
+        elif i["e"] == "reset" and cur is not None:
+            cur["rst_in"] = len(cur["acks"])           # the reset replaces the IN that would come next
             cur = None
     for p in plans:
         p.pop("_acked"), p.pop("_stage")
@@ -1126,8 +1292,52 @@ def check_C09(rep):
                 p = {"v": v, "wlen": w, "acks": [rng.random() > 0.1 for _ in range(8)]}
                 if rng.random() < 0.1:
                     p["stop_after"] = rng.randint(0, 2)
+                elif rng.random() < 0.12:
+                    p["rst_in"], p["rst_cyc"] = rng.randint(0, 2), rng.randint(0, 12)
+                if (v >> 8) == 3 and rng.random() < 0.6:
+                    p["windex"] = 0x0409                # string requests carry a language id in wIndex
                 plans.append(p)
             jobs.append((kind, table, m, plans, "random-table"))
+
+    # 2d. code -> spec: one configuration per constructor-parameter value class not met above (docs:
+    # configuration coverage): Block handler in a non-default clock domain; the collection's automatic
+    # language descriptor; avoid_blockram=None (LUNA_AVOID_BLOCKRAM); descriptor lengths around the 4-byte ROM
+    # word and above 255 bytes; language id in wIndex; clock-domain reset in mid-transfer
+    mrot = [8, 16, 32, 64]
+    mrot = mrot[rep.seed % 4:] + mrot[:rep.seed % 4]
+    lens = [2, 3, 4, 5, 6, 7, 255, 256, 257, 300]
+    wtab = [{"t": t, "i": i, "d": desc_bytes(j + 3, lens[j]), "rt": False}
+            for j, (t, i) in enumerate([(3, 0), (1, 0), (2, 0), (3, 1), (3, 4), (6, 0), (2, 1), (3, 9), (15, 0), (4, 0)])]
+    atab = [{"t": 3, "i": 0, "d": [4, 3, 9, 4], "rt": False, "auto": True},
+            {"t": 1, "i": 0, "d": desc_bytes(1, 18), "rt": False}, {"t": 3, "i": 2, "d": desc_bytes(2, 16), "rt": True},
+            {"t": 2, "i": 0, "d": desc_bytes(3, 25), "rt": False}]
+
+    def class_plans(table, m, n_req):
+        reqs = []
+        for e in table:
+            n = len(e["d"])
+            reqs += [(e["t"] * 256 + e["i"], w) for w in {n, n + 1, max(1, n - 1), 65535, m}]
+        reqs = rng.sample(reqs, min(n_req, len(reqs))) + [(0x3FE, 64)]
+        out = []
+        for v, w in reqs:
+            p = {"v": v, "wlen": w, "acks": [rng.random() > 0.15 for _ in range(6)]}
+            if rng.random() < 0.2:
+                p["rst_in"], p["rst_cyc"] = rng.randint(0, 1), rng.randint(0, 10)
+            if (v >> 8) == 3:
+                p["windex"] = 0x0409
+            out.append(p)
+        return out
+
+    nq = 10 if quick else 40
+    jobs.append(("block", wtab, mrot[0], class_plans(wtab, mrot[0], nq), "config-classes", {"domain": "sync"}))
+    jobs.append(("block", wtab, mrot[1], class_plans(wtab, mrot[1], nq), "config-classes", {"domain": "fast"}))
+    jobs.append(("dist", wtab, mrot[2], class_plans(wtab, mrot[2], nq), "config-classes", {}))
+    jobs.append(("dev-block", wtab, mrot[3], class_plans(wtab, mrot[3], nq // 2), "config-classes", {"avoid_env": True}))
+    jobs.append(("dev-dist", wtab, mrot[0], class_plans(wtab, mrot[0], nq // 2), "config-classes", {"avoid_env": True}))
+    for j, kind in enumerate(UNIT_KINDS + E2E_KINDS):
+        mm = mrot[j % 4]
+        jobs.append((kind, atab, mm, class_plans(atab, mm, 6 if quick else 20), "config-classes", {}))
+
 
     # 3. run on the real gateware: the clean transfers of a job in one trace, every witness on a fresh reset
     benches = {}
@@ -1147,15 +1357,18 @@ def check_C09(rep):
                 idx += 1 if r["ack"] else 0
 
     cyc = {k: 0 for k in UNIT_KINDS + E2E_KINDS}
+    classes_seen = {}
     unbuildable = []
-    for kind, table, m, plans, origin in jobs:
+    for job in jobs:
+        kind, table, m, plans, origin = job[:5]
+        opts = job[5] if len(job) > 5 else {}
         table = table_for(kind, table)
         if not kind_supports(kind, table):
             continue
-        key = (kind, m, json.dumps(table, sort_keys=True))
+        key = (kind, m, json.dumps(table, sort_keys=True), json.dumps(opts, sort_keys=True))
         if key not in benches:
             try:
-                benches[key] = make_bench(kind, table, m)
+                benches[key] = make_bench(kind, table, m, opts)
             except Exception as ex:      # a table the gateware cannot be built for: nothing to observe
                 benches[key] = None
                 unbuildable.append("%s MaxPkt %d lengths %s: %s: %s" % (
@@ -1179,10 +1392,26 @@ def check_C09(rep):
             cfg = spec_cfg_of(kind, table, m, cls == "clean")
             note_nontriv(kind, m, cfg, steps)
             meta = {"dut": kind, "origin": origin, "class": cls, "requests": [(p["v"], p["wlen"]) for p in ps][:8]}
+            if opts:
+                meta["options"] = opts
+            ck = "%s %s" % (kind, json.dumps(opts, sort_keys=True)) if opts else kind
+            cc = classes_seen.setdefault(ck, {"traces": 0, "resets": 0, "windex": 0, "pkts_from_desc_over_255": 0,
+                                              "autolang_reads": 0})
+            cc["traces"] += 1
+            cc["resets"] += sum(1 for r in steps if r["e"] == "reset")
+            cc["windex"] += sum(1 for p in ps if p.get("windex")) if kind in E2E_KINDS else 0
+            big = {e["v"] for e in cfg["table"] if len(e["d"]) > 255}
+            cur = None
+            for r in steps:
+                cur = r["v"] if r["e"] == "setup" else cur
+                if r["e"] == "in" and r["k"] == "data":
+                    cc["pkts_from_desc_over_255"] += cur in big
+                    cc["autolang_reads"] += int(cur == 0x300 and any(e.get("auto") for e in table))
             if finding:
                 meta["witness_of"] = finding
             items.append(({"cfg": cfg, "steps": steps}, meta))
     rep.extra["cycles_by_dut"] = cyc
+    rep.extra["configuration_classes"] = classes_seen
     for u in unbuildable[:5]:
         rep.notes.append("configuration could not be elaborated and is not bound: " + u)
     if len(unbuildable) * 4 > len(benches) or any(c == 0 for c in cyc.values()):
